@@ -49,3 +49,9 @@ Theorem C08_debounce_fresh : forall (T : Type) (eqb : T -> T -> bool) (U : Type)
   = pick outs (threshold <=? runlen T eqb pred (hist ++ [x]))%N.
 Proof. exact debounce_fresh. Qed.
 Print Assumptions C08_debounce_fresh.
+
+(* ---- the generic (float / integer) model of the bit-exact stream, instantiated at the rationals, is the model above ---- *)
+From Signalo Require Base.Arith Model.Generic Proofs.Generic.
+Theorem C08_generic_schmitt : forall (U : Type) lo hi (outs : U * U) on x, Signalo.Model.Generic.g_schmitt_step Signalo.Base.Arith.Qar lo hi outs on x = Signalo.Model.Classify.schmitt_step Signalo.Base.QR.qleb lo hi outs on x.
+Proof. exact @Signalo.Proofs.Generic.gq_schmitt. Qed.
+Print Assumptions C08_generic_schmitt.
